@@ -344,6 +344,11 @@ func replay(t *testing.T, spec *Spec) {
 	rf, _, sc := loadReplay(t, spec.Replay)
 	var res props.RunResult
 	runIn(t, "replay", func(t *testing.T) {
+		if os.Getenv("VERIF_REPLAY_FRESH") != "" {
+			// debugging aid: re-run from the seed instead of the tape
+			props.RunOne(t, rf.Property, rf.Seed, sc, props.RunOpts{KeepTrace: os.Getenv("VERIF_REPLAY_FRESH") == "trace"}, &res)
+			return
+		}
 		props.RunOne(t, rf.Property, rf.Seed, sc, props.RunOpts{Tape: rf.Tape, Replay: true, KeepTrace: true}, &res)
 	})
 	collectRaces(&res)
